@@ -604,6 +604,7 @@ void ServerConn::saslSuccess(const QByteArray &additional)
             }
             inner += QByteArray("<resumed xmlns='") + NS_SM + "' h='" + QByteArray::number(s->hIn) + "' previd='" + previd.toUtf8() + "'/>";
             resumed = true;
+            resumedHere = true;
             bound = true;
         } else {
             if (s) {
@@ -1083,6 +1084,7 @@ void ServerConn::handleSmNonza(const QDomElement &el)
                 hOut = s->hIn + 5;
             }
             send(QByteArray("<resumed xmlns='") + NS_SM + "' h='" + QByteArray::number(hOut) + "' previd='" + previd.toUtf8() + "'/>");
+            resumedHere = true;
             markReady();
             for (const auto &st : std::as_const(s->outUnacked)) {
                 send(st);
